@@ -637,7 +637,7 @@ func (fc *followerController) SendSnapshot(stream proto.OxiaLogReplication_SendS
 			"oxia":  "receive-snapshot",
 			"shard": fmt.Sprintf("%d", fc.shardId),
 		},
-		func() { fc.handleSnapshot(stream) },
+		func() { fc.handleSnapshot(stream, closeStreamWg) },
 	)
 
 	return closeStreamWg.Wait(fc.ctx)
@@ -683,9 +683,16 @@ func (fc *followerController) readSnapshotStream(stream proto.OxiaLogReplication
 	}
 }
 
-func (fc *followerController) handleSnapshot(stream proto.OxiaLogReplication_SendSnapshotServer) {
+func (fc *followerController) handleSnapshot(stream proto.OxiaLogReplication_SendSnapshotServer, closeStreamWg concurrent.WaitGroup) {
 	fc.Lock()
 	defer fc.Unlock()
+
+	// The lock was released after the checks in SendSnapshot: if this stream has been
+	// detached since (e.g. the node answered a new term request and reported its head),
+	// the transfer must not start wiping the log and the database.
+	if fc.closeStreamWg != closeStreamWg {
+		return
+	}
 
 	// Wipe out both WAL and DB contents
 	err := fc.wal.Clear()
